@@ -121,16 +121,20 @@ theorem getRelation_ok_iff (ds : List Decl) (n : Name) (a : Nat) (u : Unit) :
     · simp [ha]
     · simp [ha]
 
+/-- the position-independent conditions on a body item: its relation resolves, and (aggregations) the
+aggregated variables are arguments of the aggregated relation -/
+def Ev.localOk (ds : List Decl) (ev : Ev) : Prop := ev.relOk ds ∧ aggBoundOk ev = true
+
 /-- item-local conditions of the HIR pass at a position where the variables of `g` are grounded -/
 def Ev.okAt (ds : List Decl) (g : List Var) (ev : Ev) : Prop :=
-  ev.relOk ds ∧ ev.binderVars.Nodup ∧ ∀ v ∈ ev.binderVars, v ∉ g ∧ v ∉ ev.argIdents
+  ev.localOk ds ∧ ev.binderVars.Nodup ∧ ∀ v ∈ ev.binderVars, v ∉ g ∧ v ∉ ev.argIdents
 
 theorem hirEv_ok_iff (ds : List Decl) (g : List Var) (ev : Ev) :
     (∃ g', hirEv ds g ev = .ok g') ↔ ev.okAt ds g := by
   cases ev with
   | clause rel args conds =>
-    unfold hirEv Ev.okAt Ev.relOk
-    simp only [Ev.rel?, Ev.binderVars, Ev.argIdents, Option.some.injEq]
+    unfold hirEv Ev.okAt Ev.localOk Ev.relOk
+    simp only [Ev.rel?, Ev.binderVars, Ev.argIdents, Option.some.injEq, aggBoundOk, and_true]
     cases hg : getRelation ds rel args.length with
     | error e =>
       have hne : ¬ ∃ d, findDecl ds rel = some d ∧ d.arity = args.length := by
@@ -159,16 +163,24 @@ theorem hirEv_ok_iff (ds : List Decl) (g : List Var) (ev : Ev) :
         · exact (h2 v hv).1 h
         · exact (h2 v hv).2 h
   | binder b =>
-    unfold hirEv Ev.okAt Ev.relOk
-    simp only [Ev.rel?, Ev.binderVars, Ev.argIdents, extendGrounded_ok_iff]
+    unfold hirEv Ev.okAt Ev.localOk Ev.relOk
+    simp only [Ev.rel?, Ev.binderVars, Ev.argIdents, extendGrounded_ok_iff, aggBoundOk, and_true]
     constructor
     · rintro ⟨g', h1, h2, _⟩
       exact ⟨fun o ho => (by cases ho), h1, fun v hv => ⟨h2 v hv, by simp⟩⟩
     · rintro ⟨_, h1, h2⟩
       exact ⟨_, h1, fun v hv => (h2 v hv).1, rfl⟩
   | agg rel args pat bound =>
-    unfold hirEv Ev.okAt Ev.relOk
+    unfold hirEv Ev.okAt Ev.localOk Ev.relOk
     simp only [Ev.rel?, Ev.binderVars, Ev.argIdents, Option.some.injEq]
+    cases hb : aggBoundOk (.agg rel args pat bound) with
+    | false =>
+      simp only [Bool.not_false, if_true]
+      constructor
+      · rintro ⟨g', h⟩; cases h
+      · rintro ⟨⟨_, h⟩, _⟩; cases h
+    | true =>
+    simp only [Bool.not_true, Bool.false_eq_true, if_false, and_true]
     cases he : extendGrounded g pat.seen with
     | error e =>
       constructor
@@ -213,12 +225,14 @@ theorem hirEv_mem (ds : List Decl) (g g' : List Var) (ev : Ev) (h : hirEv ds g e
     simp only [hirEv] at h
     split at h
     · cases h
-    · rename_i g1 he
-      split at h
+    · split at h
       · cases h
-      · cases h
-        obtain ⟨_, _, rfl⟩ := (extendGrounded_ok_iff _ _ _).1 he
-        simp [Ev.grounds, Ev.argIdents, Ev.binderVars]
+      · rename_i g1 he
+        split at h
+        · cases h
+        · cases h
+          obtain ⟨_, _, rfl⟩ := (extendGrounded_ok_iff _ _ _).1 he
+          simp [Ev.grounds, Ev.argIdents, Ev.binderVars]
 
 theorem Ev.okAt_congr {ds : List Decl} {g g' : List Var} {ev : Ev} (h : ∀ v, v ∈ g ↔ v ∈ g') :
     ev.okAt ds g ↔ ev.okAt ds g' := by
@@ -262,7 +276,7 @@ theorem hirBody_ok_iff (ds : List Decl) : ∀ (evs : List Ev) (g : List Var),
 
 /-- the recursive conditions, unfolded into the positional form of the specification -/
 theorem bodyOk_iff (ds : List Decl) : ∀ (evs : List Ev) (g : List Var),
-    bodyOk ds g evs ↔ (∀ ev ∈ evs, ev.relOk ds) ∧
+    bodyOk ds g evs ↔ (∀ ev ∈ evs, ev.localOk ds) ∧
       ∀ pre ev post, evs = pre ++ ev :: post →
         ev.binderVars.Nodup ∧ ∀ v ∈ ev.binderVars, v ∉ g ++ pre.flatMap Ev.grounds ++ ev.argIdents
   | [], g => by
@@ -332,6 +346,7 @@ theorem hirHeads_ok_iff (ds : List Decl) : ∀ (hs : List Head),
 theorem hirRule_ok_iff (ds : List Decl) (r : CoreRule) :
     hirRule ds r = .ok () ↔
       (∀ o ∈ r.occurrences, ∃ d, findDecl ds o.1 = some d ∧ d.arity = o.2) ∧
+      (∀ ev ∈ r.body, aggBoundOk ev = true) ∧
       (∀ pre ev post, r.body = pre ++ ev :: post →
         ev.binderVars.Nodup ∧ ∀ v ∈ ev.binderVars, v ∉ pre.flatMap Ev.grounds ++ ev.argIdents) := by
   have hocc : (∀ o ∈ r.occurrences, ∃ d, findDecl ds o.1 = some d ∧ d.arity = o.2) ↔
@@ -352,14 +367,14 @@ theorem hirRule_ok_iff (ds : List Decl) (r : CoreRule) :
   | error e =>
     constructor
     · intro h; cases h
-    · rintro ⟨⟨h1, _⟩, h2⟩
-      obtain ⟨g', hg'⟩ := hb.2 ⟨h1, h2⟩
+    · rintro ⟨⟨h1, _⟩, h3, h2⟩
+      obtain ⟨g', hg'⟩ := hb.2 ⟨fun ev hev => ⟨h1 ev hev, h3 ev hev⟩, h2⟩
       rw [hbody] at hg'; cases hg'
   | ok g1 =>
     obtain ⟨k1, k2⟩ := hb.1 ⟨g1, hbody⟩
     simp only [hirHeads_ok_iff]
     constructor
-    · intro h; exact ⟨⟨k1, h⟩, k2⟩
+    · intro h; exact ⟨⟨fun ev hev => (k1 ev hev).1, h⟩, fun ev hev => (k1 ev hev).2, k2⟩
     · rintro ⟨⟨_, h⟩, _⟩; exact h
 
 theorem hirRules_ok_iff' (ds : List Decl) : ∀ (rules : List CoreRule),
